@@ -62,7 +62,7 @@ func (c StepCase) String() string {
 	return fmt.Sprintf("%s parked at pass %d of %s", c.Victim, c.Skip+1, c.Site)
 }
 
-var StepVictims = []string{"join", "leave", "switch", "delete", "lastleave", "create", "compadd-vs-delete", "compadd-vs-leave", "action-vs-delete", "action-vs-leave", "action-vs-action", "compupd-vs-unsub", "compadd-vs-compadd", "customto-vs-customto", "sub-vs-sub", "join-vs-lastleave"}
+var StepVictims = []string{"join", "leave", "switch", "delete", "lastleave", "create", "compadd-vs-delete", "compadd-vs-leave", "action-vs-delete", "action-vs-leave", "action-vs-action", "compupd-vs-unsub", "compadd-vs-compadd", "customto-vs-customto", "sub-vs-sub", "join-vs-lastleave", "entityadd", "compdel", "assetadd", "custom"}
 
 // stepSiteOK: points on the victim's own path; points that every connection
 // or the frame worker pass all the time would park somebody else.
@@ -91,6 +91,8 @@ type stepEnv struct {
 	oldUUID      string
 	t, t2        uint32
 	t3           uint32 // a type nobody is subscribed to (sub-vs-sub)
+	vLog0        int    // length of the victim's log when its request was sent
+	vE           uint32 // generic victims: an entity of the victim carrying a component of type t
 	t4, t5       uint32 // types whose only subscriber is the victim (t4) / the scripted leaver (t5)
 	subV, subL   bool   // those subscriptions were made
 	e0, eDel     uint32
@@ -201,6 +203,14 @@ func stepSetup(p *sut.Proc, victim string) *stepEnv {
 		must(err)
 	case "action-vs-action", "compadd-vs-compadd":
 		_, _, err = v.Join(en.sid)
+		must(err)
+	case "entityadd", "compdel", "assetadd", "custom":
+		// a member that makes one plain request, parked at every point of it
+		_, _, err = v.Join(en.sid)
+		must(err)
+		en.vE, err = v.AddEntity(true, 21)
+		must(err)
+		_, err = v.AddComp(en.t, en.vE, "vE-c")
 		must(err)
 	case "sub-vs-sub":
 		// a type with a component but without any subscriber yet; the victim and
@@ -367,6 +377,14 @@ func (en *stepEnv) fire(victim string) {
 			EntityAction: &vikjapb.EntityAction{EntityId: en.eO, Name: "late", Timestamp: &timestamppb.Timestamp{Seconds: 1_700_000_300}, Data: []byte("late")}}))
 	case "delete":
 		must(v.Send(&hagallpb.EntityDeleteRequest{Type: d.TEntityDelReq, Timestamp: d.NewTag(), RequestId: v.NextReqID(), EntityId: en.vNP}))
+	case "entityadd":
+		must(v.Send(&hagallpb.EntityAddRequest{Type: d.TEntityAddReq, Timestamp: d.NewTag(), RequestId: v.NextReqID(), Persist: true, Pose: &hagallpb.Pose{Px: 33, Rw: 1}}))
+	case "compdel":
+		must(v.Send(&hagallpb.EntityComponentDeleteRequest{Type: d.TCompDelReq, Timestamp: d.NewTag(), RequestId: v.NextReqID(), EntityComponentTypeId: en.t, EntityId: en.vE}))
+	case "assetadd":
+		must(v.Send(&odalpb.AssetInstanceAddRequest{Type: d.TAssetAddReq, Timestamp: d.NewTag(), RequestId: v.NextReqID(), EntityId: en.vE, AssetId: "victim-asset"}))
+	case "custom":
+		must(v.Send(&hagallpb.CustomMessage{Type: d.TCustom, Timestamp: d.NewTag(), Body: []byte("victim-broadcast")}))
 	}
 }
 
@@ -668,6 +686,7 @@ func StepRun(p *sut.Proc, c StepCase) (res *StepResult) {
 	defer p.RT("op=mode&v=0")
 	defer p.RT("op=reset")
 	rt(p, fmt.Sprintf("op=hold&site=%s&skip=%d&max=1", site, c.Skip))
+	en.vLog0 = len(en.v.LogCopy())
 	en.fire(c.Victim)
 	if _, err := p.RT(fmt.Sprintf("op=wait&site=%s&n=1&ms=1500", site)); err != nil {
 		// not reached this time (the pass belongs to another goroutine's schedule): counted, not judged
@@ -1227,6 +1246,64 @@ func (en *stepEnv) judgeSession(c StepCase, res *StepResult, snap *scen.Snapshot
 			res.Findings = append(res.Findings, sf([]string{"C12"}, "component/accepted-add-not-stored", c, "an accepted add of (type %d, entity %d) is not handed to a probe", en.t2, en.e0))
 		case victimOK && string(data) != "by-victim" || en.mutatorAddOK && string(data) != "by-mutator":
 			res.Findings = append(res.Findings, sf([]string{"C12", "C04"}, "component/refused-add-stored", c, "the server holds %q for (type %d, entity %d) although that add was refused (victim accepted=%v, mutator accepted=%v)", data, en.t2, en.e0, victimOK, en.mutatorAddOK))
+		}
+	}
+	if !c.Abort && (c.Victim == "entityadd" || c.Victim == "compdel" || c.Victim == "assetadd" || c.Victim == "custom") {
+		// the victim's request: answered exactly once (the broadcast custom message:
+		// not at all), relayed exactly once to the witness, at most once to the
+		// newcomer (which joined while it was in progress), never to the victim
+		answers := 0
+		for _, e := range v.LogCopy()[en.vLog0:] {
+			switch x := e.M.(type) {
+			case *hagallpb.EntityAddResponse, *hagallpb.EntityComponentDeleteResponse, *odalpb.AssetInstanceAddResponse:
+				answers++
+			case *hagallpb.ErrorResponse:
+				if x.RequestId != 0 {
+					answers++
+				}
+			}
+		}
+		want := 1
+		if c.Victim == "custom" {
+			want = 0
+		}
+		if answers != want {
+			res.Findings = append(res.Findings, sf([]string{"C04"}, "step/answer-exactly-once", c, "the victim's request got %d answers (want %d); its stream: %v", answers, want, v.LogCopy()))
+		}
+		relays := func(cl *scen.C) int {
+			n := 0
+			for _, e := range cl.LogCopy() {
+				switch x := e.M.(type) {
+				case *hagallpb.EntityAddBroadcast:
+					if c.Victim == "entityadd" && x.Entity.GetParticipantId() == v.PID && x.Entity.GetPose().GetPx() == 33 {
+						n++
+					}
+				case *hagallpb.EntityComponentDeleteBroadcast:
+					if c.Victim == "compdel" && x.EntityComponent.GetEntityId() == en.vE && x.EntityComponent.GetEntityComponentTypeId() == en.t {
+						n++
+					}
+				case *odalpb.AssetInstanceAddBroadcast:
+					if c.Victim == "assetadd" && x.AssetInstance.GetAssetId() == "victim-asset" {
+						n++
+					}
+				case *hagallpb.CustomMessageBroadcast:
+					if c.Victim == "custom" && string(x.Body) == "victim-broadcast" {
+						n++
+					}
+				}
+			}
+			return n
+		}
+		if got := relays(w); got != 1 {
+			res.Findings = append(res.Findings, sf([]string{"C02"}, "relay/not-exactly-once", c, "the witness, a member throughout, received %d relays of the victim's request (want 1)", got))
+		}
+		if en.n != nil {
+			if got := relays(en.n); got > 1 {
+				res.Findings = append(res.Findings, sf([]string{"C02"}, "relay/not-exactly-once", c, "the newcomer received %d relays of the victim's request", got))
+			}
+		}
+		if got := relays(v); got != 0 {
+			res.Findings = append(res.Findings, sf([]string{"C02"}, "relay/echoed-to-sender", c, "the victim received %d relays of its own request", got))
 		}
 	}
 	if c.Victim == "compupd-vs-unsub" {
